@@ -45,6 +45,9 @@ def role_of(atom, value):
         return "try_ok", value == "Continue"
     if atom == "variant(@newer_vis)":
         return "newer_some", value == "Some"
+    # the retention test moved into a helper (`older_version_expired(self, ts)` = retention period set AND age beyond it)
+    if atom.startswith("older_version_expired(") or (("expired(" in atom or "is_stale(" in atom) and ".timestamp" in atom):
+        return "expired_by_retention", value
     if atom == "@latest_del_bottom":
         return "latest_del_bottom", value
     if atom == "@has_replace":
@@ -255,6 +258,7 @@ def totals():
     for combo in itertools.product(*[DOMAIN[k] for k in keys]):
         t = dict(zip(keys, combo))
         t["must_preserve"] = (t["cur_vis"] == "Bounded")
+        t["expired_by_retention"] = t["retention_pos"] and t["expired"]  # derived: what a helper returns when the code asks it
         if feasible(t):
             yield t
 
